@@ -163,17 +163,18 @@ func runMaxKB(c *fw.Ctx, idx int, r *fw.Rand) {
 		return
 	}
 	limit := maxkb * 1024
-	for k, f := range []int{50, 95, 99, 101, 110, 200, 30} {
-		size := limit * f / 100
-		if f == 99 || f == 101 {
-			size = limit + (f - 100) // within a byte or so of the limit, headers make it exceed
-		}
+	// Exact DATA lengths around the limit: the stored form is about 130 bytes longer (trace
+	// headers), so limit-140...limit-1 fit as transmitted but not as stored.
+	for k, size := range []int{limit / 2, limit - 400, limit - 200, limit - 140, limit - 100, limit - 60, limit - 20, limit - 1, limit + 1, limit + 200, 2 * limit, limit / 3} {
 		box := fmt.Sprintf("mk%d-%d", idx, k)
 		var b bytes.Buffer
 		b.WriteString("Subject: " + box + "\r\nFrom: a@b.test\r\n\r\n")
 		line := strings.Repeat(box+"~", 6) + "\r\n"
-		for b.Len() < size {
+		for b.Len()+len(line) <= size {
 			b.WriteString(line)
+		}
+		if pad := size - b.Len() - 2; pad >= 0 {
+			b.WriteString(strings.Repeat("p", pad) + "\r\n")
 		}
 		data := b.Bytes()
 		for _, l := range []string{"MAIL FROM:<s@sender.test>", "RCPT TO:<" + box + "@alpha.test>", "DATA"} {
